@@ -639,7 +639,7 @@ class FieldValueComponentUrl(FieldValueComponentKeyValueBase):
         parser.parse_string_by_length('value', item_class=convert_url())
 
     def _get_value_as_simple_type(self):
-        if self.value.scheme == 'mailto':
+        if self.value.scheme == 'mailto' and self.value.host is None:
             value = 'mailto:' + self.value.request_uri[1:]
             if self.value.fragment is not None:
                 value += '#' + self.value.fragment
